@@ -204,6 +204,10 @@ def wl_profiles(ctx, rng, i):
     if t != "bundle" and M.model(ver).types[t]["cat"] != "meta" or ver == "2.1" and t != "bundle":
         b = g.bundle(members=[o])
         judge(ctx, b, ver, embedding="bundle-member")
+        if ver == "2.0" and rnd % 2 == 0:
+            # a 2.1 bundle may carry 2.0 objects (they have no spec_version): each is read, and written, as what it is
+            b21 = {"type": "bundle", "id": b["id"], "objects": [o]}
+            judge(ctx, b21, "2.1", embedding="2.0-member-of-a-2.1-bundle")
     # 2.1 SCO as an observed-data element (deprecated container form) ; 2.0 SCOs are only ever generated there
     if ver == "2.1" and M.model(ver).types[t]["cat"] == "sco":
         od = g.make("observed-data", ("only", ["objects"]), granular=False)
